@@ -46,7 +46,7 @@ def _gen_bin(ctx):
     return b
 
 
-def build_server(ctx, probe, cfg, allresolvers=True, race=False, extra_yml=""):
+def build_server(ctx, probe, cfg, allresolvers=True, race=False, extra_yml="", mixed=False):
     """returns path of the runner binary for (probe schema, config); raises RuntimeError with the
     generator / compiler output when generation or the build fails."""
     th = vf.tree_hash()
@@ -57,11 +57,15 @@ def build_server(ctx, probe, cfg, allresolvers=True, race=False, extra_yml=""):
             h.update(open(os.path.join(root, f), "rb").read())
     for f in ("universal/universal.go", "universal/runner.go", "universal/gen.go", "gen/main.go"):
         h.update(open(os.path.join(vf.GO, f), "rb").read())
-    h.update(repr(CONFIGS[cfg]).encode() + extra_yml.encode())
-    gkey = "%s_%s_%s_%s" % (probe, cfg, th, h.hexdigest()[:8])
+    h.update(repr(CONFIGS[cfg]).encode() + extra_yml.encode() + (b"mixed" if mixed else b""))
+    if mixed:
+        cfg_name = cfg + "_mixed"
+    else:
+        cfg_name = cfg
+    gkey = "%s_%s_%s_%s" % (probe, cfg_name, th, h.hexdigest()[:8])
     mode = "race" if race else "plain"
-    out = os.path.join(vf.CACHE, "srv_%s_%s_%s_%s_%s" % (mode, probe, cfg, th, h.hexdigest()[:8]))
-    pkg = "%s_%s" % (probe, cfg)
+    out = os.path.join(vf.CACHE, "srv_%s_%s_%s_%s_%s" % (mode, probe, cfg_name, th, h.hexdigest()[:8]))
+    pkg = "%s_%s%s" % (probe, cfg, "_mixed" if mixed else "")
     d = os.path.join(vf.GO, "genout", pkg)
     stamp = os.path.join(d, ".verif_stamp")
     fresh = os.path.exists(stamp) and open(stamp).read() == gkey
@@ -83,7 +87,9 @@ def build_server(ctx, probe, cfg, allresolvers=True, race=False, extra_yml=""):
     open(os.path.join(d, "gqlgen.yml"), "w").write(
         BASE_YML.format(exec=ex.format(pkg=pkg), extra=extra + "\n" + extra_yml))
     args = [_gen_bin(ctx), "-dir", d]
-    if allresolvers:
+    if mixed:
+        args.append("-mixed")
+    elif allresolvers:
         args.append("-allresolvers")
     rc, so, se = vf.sh(args, cwd=vf.GO, env=vf.go_env(), timeout=900)
     if rc != 0:
@@ -92,7 +98,7 @@ def build_server(ctx, probe, cfg, allresolvers=True, race=False, extra_yml=""):
     open(stamp, "w").write(gkey)
     # drop stale binaries of other tree hashes for this (probe, cfg)
     for f in os.listdir(vf.CACHE):
-        if (f.startswith("srv_plain_%s_%s_" % (probe, cfg)) or f.startswith("srv_race_%s_%s_" % (probe, cfg))) \
+        if (f.startswith("srv_plain_%s_%s_" % (probe, cfg_name)) or f.startswith("srv_race_%s_%s_" % (probe, cfg_name))) \
                 and not f.endswith("%s_%s" % (th, h.hexdigest()[:8])) \
                 and time.time() - os.path.getmtime(os.path.join(vf.CACHE, f)) > 1800:
             try:
